@@ -26,8 +26,10 @@
 //        cnf:<ids>|<ids>|…           CNF by maximal UNqualified sets e.g. cnf:1,2|3,4|1,3
 //        hier:<t>:<ids>|<t>:<ids>|…  hierarchical conjunctive levels e.g. hier:1:1,2|3:3,4,5
 //        bool:<expr>                 threshold-gate tree             e.g. bool:and(1,or(2,3),th2(4,5,6))
-//      IDs are arbitrary non-zero uint64 in decimal.  `accessSpecIDs(ac)` lists holders sorted.
-//   qualifiedSets(ac, max) / unqualifiedSets(ac, max)            enumerations over ≤ 2^n subsets
+//      IDs are arbitrary non-zero uint64 in decimal.  `accessIDs(ac)` lists the holders sorted;
+//      `mustAccess(spec)` panics on a bad spec.
+//   qualifiedSets(ac) (qualified, unqualified [][]ID) / minimalQualifiedSets(ac)   over all ≤ 2^16 subsets
+//   genIDs(rng, n, maxID) / genSpec(rng, family, n, capCNF)  (c03.go) random structures, arbitrary IDs
 //
 //   type Hook interface { OnMessage(protocol string, round int, from, to ID, broadcast bool,
 //                                   msg any) (replacement any, drop bool) }
@@ -38,7 +40,7 @@
 //          `[]byte` to have those bytes CBOR-decoded at the recipient as the message type
 //          (undecodable bytes ⇒ the message is missing for that recipient; recorded in the log);
 //        * `round` is the round whose OUTPUT the message is (1-based).
-//      Ready-made hooks: nil (none), RecordHook (see Net.Log, always on), TamperHook{Match,Apply}.
+//      Ready-made hooks: nil (none; Net.Log records every message regardless), HookFunc, TamperHook{Match,Apply}.
 //
 //   newNet(protocol, ids, rngs map[ID]io.Reader, hook) *Net
 //        Net.Log          []MsgRecord  every message: CBOR before/after the hook, dropped, undecodable
@@ -55,7 +57,7 @@
 //   runSession(ids, rngs, hook) (*Net, map[ID]*session.Context)        4 rounds
 //   dealerContexts(ids, rng) map[ID]*session.Context                    trusted setup (no rounds; fast)
 //   runTrustedDealer(group, ac, rng)                → *DKGResult
-//   runGennaro(group, ac, ctxs, rngs, hook)         → *DKGResult        3 rounds
+//   runGennaro(group, ac, ctxs, rngs, hook, nic)    → *DKGResult        3 rounds (nic: defaultCompiler)
 //   runCanetti(group, ac, ctxs, rngs, hook)         → *DKGResult        4 rounds
 //        DKGResult{Net, Shards map[ID]*mpc.BaseShard, DealerVV map[ID][]G (each dealer's broadcast
 //        Feldman vector), PedersenVV (Gennaro r1)}
@@ -63,8 +65,8 @@
 //   runRunners(net, runners map[ID]network.Runner[O]) map[ID]O         generic networked variant
 //        (pkg/network routers over ntu.MockCoordinator; Net.DeliveryHook may tamper raw payloads)
 //   shardView(shard) ShardView{Rows [][]S, Labels []ID, V []G, PK G, ShareID, Share []S}
-//   runDKLs23(variant, suite, shards, quorum, ctxs, msg, rngs, hook) → *ECDSAResult{Net, Partials,
-//        NoncePoints map[ID]P (broadcast R_i), Sig, SigPerAggregator}
+//   runDKLs23(variant, suite, baseShards, quorum, ctxs, msg, rngs, hook) → *ECDSAResult{Net, PK, Partials,
+//        NoncePoints map[ID]P (broadcast R_i), PkShares, Sig, SigAlt (second aggregation order), AggStatus}
 //   runLindell22(variant, …) → *SchnorrResult ; runBoldyreva(…) ; runLindell17*(…) ; runHJKY ; runRedistribute
 //   (see the headers of the other proto_*.go files)
 //
